@@ -226,4 +226,20 @@ def run(chk, ctx):
                'decoded: encoder output ending in those octets is not '
                'accepted as sent' % '; '.join(sorted(set(edits))[:2]),
                site='pamqp/frame.py::unmarshal')
+    # every method frame the encoder produces is found again: the index a
+    # class writes is the key it is registered under
+    st0_ = ctx.static()
+    mapping_ = ctx.index_mapping()
+    for k_, ci_ in mapping_:
+        if not hasattr(ci_, 'qualname'):
+            continue
+        own_ = st0_.class_attr(ci_, 'index')
+        if own_ != k_ and own_ not in [
+                kk for kk, cc in mapping_ if cc is ci_]:
+            chk.ob('C20.D', '%s registration' % ci_.short, False,
+                   'the class writes index %s but is registered under '
+                   '%s: the frame the encoder produces is refused by the '
+                   'decoder' % ('0x%08X' % own_ if isinstance(own_, int)
+                                else own_, '0x%08X' % k_),
+                   site='pamqp/commands.py')
     chk.floor('C20.D', 5, 'decoder facts')
